@@ -334,21 +334,17 @@ def pack_body(ctx, c):
             accepted = [r for r in sent[side] if "raised" not in r and r.get("connected", True)]
             if not accepted:
                 continue
-            # loss-free link: every unfragmented message that went onto the wire is decoded and handed over by the peer
-            # (fragmented ones are C05/C06's subject and exposed to the open finding D6 under backlog)
-            undelivered = [r for r in accepted if r["n"] <= P and w.ledger.n_delivered(r["receiver"], r["payload"]) < 1]
-            if undelivered and conn is not None and not conn.outgoing_messages:
-                r = undelivered[0]
-                ctx.violation("pack-emitted-but-not-decoded", "mtu=%d side=%s: %d of %d unfragmented messages never reached the peer application on a loss-free link; e.g. %d bytes retry=%s" % (
-                    mtu, side, len(undelivered), len(accepted), r["n"], r["retry"]))
-            if conn is None:
-                ctx.violation("pack-connection-lost", "connection vanished on a perfect network (side %s)" % side)
-                continue
             apps, whole = reassemble_from_tap(tap_messages(w, src))
             have = {}
             for pl in apps + whole:
                 have[pl] = have.get(pl, 0) + 1
-            missing = [r for r in accepted if have.get(r["payload"], 0) < 1]
+            # multiset semantics: identical payloads (e.g. hundreds of empty ones) must appear at least as often as they were sent
+            need = {}
+            missing = []
+            for r in accepted:
+                need[r["payload"]] = need.get(r["payload"], 0) + 1
+                if have.get(r["payload"], 0) < need[r["payload"]]:
+                    missing.append(r)
             if missing:
                 still = len(conn.outgoing_messages)
                 r = missing[0]
@@ -358,6 +354,22 @@ def pack_body(ctx, c):
                 else:
                     ctx.violation("pack-lost", "mtu=%d side=%s: %d of %d accepted messages never appeared on the wire and are no longer queued; e.g. %d bytes retry=%s" % (
                         mtu, side, len(missing), len(accepted), r["n"], r["retry"]))
+            # loss-free link: every unfragmented message that went onto the wire is decoded and handed over by the peer
+            # (fragmented ones are C05/C06's subject and exposed to the open finding D6 under backlog)
+            seen_n = {}
+            undelivered = []
+            for r in accepted:
+                if r["n"] <= P:
+                    seen_n[r["payload"]] = seen_n.get(r["payload"], 0) + 1
+                    if w.ledger.n_delivered(r["receiver"], r["payload"]) < seen_n[r["payload"]]:
+                        undelivered.append(r)
+            if undelivered and not missing and conn is not None and not conn.outgoing_messages:
+                r = undelivered[0]
+                ctx.violation("pack-emitted-but-not-decoded", "mtu=%d side=%s: %d of %d unfragmented messages never reached the peer application on a loss-free link; e.g. %d bytes retry=%s" % (
+                    mtu, side, len(undelivered), len(accepted), r["n"], r["retry"]))
+            if conn is None:
+                ctx.violation("pack-connection-lost", "connection vanished on a perfect network (side %s)" % side)
+                continue
         return max_burst, mixed_multi
 
 
